@@ -5,10 +5,11 @@
 //
 // line:   id \t <cap> tok tok ... \t <reads oldest first>|<view>
 // tokens: P<v> push  O pop  L<i> get local  S<i>:<v> set local  C<i> capture  U<h> upvalue get
-//         V<h>:<v> upvalue set  X<i> CLOSE_UPVALUES_TO i  K<n> call (n slots become the frame)
-//         R return  G growValueStack  g growth that happened inside the preceding call (70% rule;
-//         emitted as observed, dropped and re-derived on replay)  T<a>:<lc> tail call
-//         N<i> new variable instance in slot i (the machine does nothing)
+//
+//	V<h>:<v> upvalue set  X<i> CLOSE_UPVALUES_TO i  K<n> call (n slots become the frame)
+//	R return  G growValueStack  g growth that happened inside the preceding call (70% rule;
+//	emitted as observed, dropped and re-derived on replay)  T<a>:<lc> tail call
+//	N<i> new variable instance in slot i (the machine does nothing)
 package main
 
 import (
@@ -106,6 +107,9 @@ func safe(m *vm.VerifC13, tok string) bool {
 	return false
 }
 
+// -extra notail: no tail calls (used by the C10 streams; tail calls are C13's subject)
+var noTail bool
+
 func gen(rng *hx.Rng, r *runner, n int, disciplined bool) {
 	m := r.m
 	val := 10
@@ -176,7 +180,7 @@ func gen(rng *hx.Rng, r *runner, n int, disciplined bool) {
 			}
 			tok = fmt.Sprintf("N%d", i)
 		default:
-			if live < 2 {
+			if live < 2 || noTail {
 				continue
 			}
 			a := 1 + rng.Below(min(live-1, 2))
@@ -206,10 +210,11 @@ func emit(id string, capSlots int, r *runner, res string) {
 
 func main() {
 	o := hx.ParseFlags()
+	noTail = o.Extra == "notail"
 	k := 0
 	for _, in := range hx.ReadInputs(o.Input) {
 		f := strings.Fields(in)
-		if len(f) < 1 {
+		if len(f) < 1 || (noTail && strings.Contains(in, " T")) {
 			continue
 		}
 		capSlots, _ := strconv.Atoi(f[0])
